@@ -133,12 +133,15 @@ C05Prefix(E, S, line) ==
   IF ~(HasRecS(S, X.rid) /\ Sentinels(s) /\ InHits(E, X.rid)) THEN Res(<<>>, <<"ood">>)
   ELSE LET tok == RecOfS(S, X.rid).tok
            p   == ParseHL(E.hits[PosOf(E, X.rid)].title)
+           \* the typed word as the SPECIFICATION's tokeniser reads the raw query (see C04): one unfinished word
+           sq  == Tokenize(S.lang, E.q, TRUE)
+           qw  == IF Len(sq.words) = 1 /\ ~sq.words[1].fin THEN SubSeq(sq.chars, sq.words[1].s + 1, sq.words[1].e) ELSE <<>>
        IN ChkIf(/\ SentinelFree(RecOfS(S, X.rid).title) /\ p.ok
-                /\ NWords(tok) = 1 /\ NWords(E.qtok) = 1 /\ ~E.qtok.words[1].fin
-                /\ IsPrefixOf(QWord(E, 1), WordChars(tok, 1)),
+                /\ NWords(tok) = 1 /\ qw # <<>>
+                /\ IsPrefixOf(qw, WordChars(tok, 1)),
                 /\ Len(p.spans) = 1
                 /\ SubSeq(p.plain, p.spans[1].a + 1, p.spans[1].b)
-                     = SrcSlice(tok, tok.words[1].s, tok.words[1].s + Len(QWord(E, 1))),
+                     = SrcSlice(tok, tok.words[1].s, tok.words[1].s + Len(qw)),
                 line, "C05", "exact prefix of a one-word title is not highlighted exactly")
 
 ----------------------------------------------------------------------------
